@@ -3,7 +3,7 @@ VIEW View
 CONSTANTS
   Names = {"a", "b", "name"}
   IntVals <- IV_small
-  Specials = {"none", "ref", "zz", "floatfrac", "mem"}
+  Specials = {"none", "ref", "floatfrac"}
   DispNames = {"", "x"}
   MaxPieces = 2
   MaxExt = 1
